@@ -57,7 +57,8 @@ def make_exc(c, which):
 
 
 class Boom(Exception):
-    pass
+    def __len__(self):          # falsy when its code is even: `if exc:` and concurrent.futures' result() overlook it
+        return int(self.args[0]) % 2 if self.args and isinstance(self.args[0], int) else 1
 
 
 class Env:
@@ -182,8 +183,13 @@ class CoopEvent:
 class LockTable(dict):
     E = None
 
+    _peeked = None
+
     def __getitem__(self, k):
         E = self.E or ENV
+        if self._peeked == (threading.current_thread().name, k):
+            self._peeked = None          # `if key in table: return table[key]`: one look-up, already logged
+            return dict.__getitem__(self, k)
         E.S.point('locktable.get')
         t = E.tid()
         second = E.create_holder == threading.current_thread().name
@@ -196,6 +202,21 @@ class LockTable(dict):
         return v
 
 
+    def get(self, k, default=None):
+        try:
+            return self[k]
+        except KeyError:
+            return default
+
+    def __contains__(self, k):
+        try:
+            self[k]
+        except KeyError:
+            return False
+        self._peeked = (threading.current_thread().name, k)
+        return True
+
+
 class Target(BLoop):
     """The target loop: reads of its state by callers are schedule points; entering / leaving run_forever is
     logged; a second thread entering is what asyncio reports as 'already running'."""
@@ -204,7 +225,7 @@ class Target(BLoop):
         E = getattr(self, 'E', None) or ENV
         me = threading.current_thread().name
         if (me.startswith('C') and E.S.threads.get(me) and getattr(E, 'dispatching', {}).get(me)
-                and sys._getframe(1).f_code.co_name == 'ensure_aw'):
+                and sys._getframe(1).f_globals.get('__name__') == 'aiuti.asyncio'):
             E.S.point('T.is_running')
             b = super().is_running()
             E.labels.append(f'rr:{int(me[1:])}:{1 if b else 0}')
@@ -218,7 +239,7 @@ class Target(BLoop):
         me = threading.current_thread().name
         b = super().is_closed()
         if (me.startswith('C') and getattr(E, 'dispatching', {}).get(me)
-                and sys._getframe(1).f_code.co_name == 'ensure_aw'):
+                and sys._getframe(1).f_globals.get('__name__') == 'aiuti.asyncio'):
             E.S.point('T.is_closed')
             b = super().is_closed()
             E.labels.append(f'rc:{int(me[1:])}:{1 if b else 0}')
